@@ -277,6 +277,9 @@ func (s *Sim) execTL(ev *TLEvent) {
 		if d := s.liveByHost[ev.Host]; d != nil {
 			s.killDaemon(d, false)
 		}
+		if ev.Arg == "crash_recovery" {
+			s.writeErrorLog(ev.Host, true)
+		}
 		s.stats.Faults["host_crash"]++
 		if ev.DurMs > 0 {
 			s.after(ms(ev.DurMs), "restart-host", func() {
